@@ -4,7 +4,7 @@ from fractions import Fraction
 import lib, storelib as S, arithlib as A
 from lib import Result, RMODES, OMODES, model_call, run_sharded, e_fmt, Reader
 
-RULE = ('every pair of operand formats with n_word<=3 (quick) / <=5 (thorough), every code pair with divisor != 0, n_frac 0..n_word, rounding in {trunc, floor, around}, methods raw and repr; '
+RULE = ('every pair of operand formats with n_word<=3 (quick) / <=5 (thorough), every code pair with divisor != 0, n_frac 0..n_word, rounding in {trunc, floor, around}, methods raw and repr, the operands presented as two scalars, an array against a scalar (either side), two arrays, or an array against an element obtained by indexing; '
         'random format pairs with result word <=53 bits, extreme and random codes; operands up to 62 bits whose // and % result words are within 53 bits (x/y checked when its own word is). Checked on the implementation output with exact rationals: x/y exact when representable else one of the two '
         'neighbours (error < 1 LSB), no overflow with optimal sizing, x//y = floor(x/y), x%y = x - y*floor(x/y) with the divisor\'s sign, (x//y)*y + x%y == x, raw and repr agree on // and %; '
         'result formats against the extracted Spec; (D) x/y into an imposed format (sizing same / largest / smallest, plain-number divisors under the default configuration) when the quotient lies inside it: exact or neighbour, no flag; (E) // and % for formats with n_word<=5 whose fraction length is negative or exceeds the word. Non-trivial = the quotient is not an integer multiple of the result LSB; distinct by formats, codes, method, rounding.')
@@ -27,11 +27,16 @@ def run_cases(cases, res, stratum):
     """case: (fxm, cx, fym, cy, method, rounding)"""
     fx = lib.impl(); import numpy as np
     pend = []; reqs = []
-    for (fxm, cx, fym, cy, method, rnd) in cases:
-        case = {'x': list(fxm), 'cx': cx, 'y': list(fym), 'cy': cy, 'method': method, 'rounding': rnd}
+    for ci, tup in enumerate(cases):
+        (fxm, cx, fym, cy, method, rnd) = tup[:6]
+        # how the operands present themselves: two scalars, an array against a scalar (either side), two arrays, an array against an element
+        # obtained by indexing; the checked pair sits at position 0 of the result (the other positions hold a harmless second pair)
+        lay = tup[6] if len(tup) > 6 else ('ss', 'ss', 'ss', 'as', 'sa', 'aa', 'ai')[(ci * 7 + cx + cy) % 7]
+        case = {'x': list(fxm), 'cx': cx, 'y': list(fym), 'cy': cy, 'method': method, 'rounding': rnd, 'layout': lay}
         try:
-            x = A.mk(fx, np, *fxm, cx, rounding=rnd, op_method=method)
-            y = A.mk(fx, np, *fym, cy, rounding=rnd, op_method=method)
+            x = A.mk(fx, np, *fxm, [cx, cx] if lay[0] == 'a' else cx, shape=(2,) if lay[0] == 'a' else None, rounding=rnd, op_method=method)
+            y = A.mk(fx, np, *fym, [cy, cy] if lay[1] in 'ai' else cy, shape=(2,) if lay[1] in 'ai' else None, rounding=rnd, op_method=method)
+            if lay[1] == 'i': y = y[0]
             md = x % y if 1 <= wmod_of(fxm, fym) <= 53 else None
             fl = x // y if 1 <= wfl_of(fxm, fym) <= 53 else None
             q = x / y if (wq_of(fxm, fym) <= 53 and fl is not None) else None      # (x/y only when ITS result word is within the domain)
@@ -256,5 +261,5 @@ def replay(payload):
         run_imposed([c], res); return {'holds': not res.failures, 'failures': res.failures}
     if c.get('odd'):
         run_odd([c], res); return {'holds': not res.failures, 'failures': res.failures}
-    run_cases([(tuple(c['x']), c['cx'], tuple(c['y']), c['cy'], c['method'], c['rounding'])], res, 'replay')
+    run_cases([(tuple(c['x']), c['cx'], tuple(c['y']), c['cy'], c['method'], c['rounding'], c.get('layout', 'ss'))], res, 'replay')
     return {'holds': not res.failures, 'failures': res.failures}
